@@ -1,6 +1,7 @@
 // Supervisor, worker pool, violation gating, minimisation, replay, evidence.
 #include "runner.h"
 #include "../seams/env.h"
+#include <clocale>
 #include <algorithm>
 #include <cerrno>
 #include <chrono>
@@ -108,6 +109,12 @@ RunResult runPlan(Family* fam, const Plan& plan, bool trace, StatusSlot* slot) {
 	g_alloc.capHits = 0;
 	g_alloc.failCountdown = 0;
 	g_alloc.injectedFailures = 0;
+	// process environment and C locale are environment too: os.NAME=value entries become environment variables for this run,
+	// clocale=... the C locale (both restored afterwards; the process starts with every locale variable unset, see main)
+	std::vector<std::string> osSet;
+	for (auto& kv : plan.env) if (kv.first.rfind("os.", 0) == 0 && kv.first.size() > 3) { ::setenv(kv.first.c_str() + 3, unquoteToken(kv.second).c_str(), 1); osSet.push_back(kv.first.substr(3)); }
+	std::string clocale = plan.envs("clocale", "");
+	if (!clocale.empty() && !setlocale(LC_ALL, clocale.c_str())) ctx.counters["probe.clocale_not_available"]++;
 	scribbleStack(stackFill);
 	alarm(static_cast<unsigned>(plan.envu("watchdog", 60)));
 
@@ -125,6 +132,8 @@ RunResult runPlan(Family* fam, const Plan& plan, bool trace, StatusSlot* slot) {
 	}
 	alarm(0);
 	g_fault.armed = false;
+	for (auto& k : osSet) ::unsetenv(k.c_str());
+	if (!clocale.empty()) setlocale(LC_ALL, "C");
 	g_alloc.cap = SIZE_MAX;
 	g_alloc.fill = false;
 	heapShiftRelease(shift);
